@@ -1,1 +1,2 @@
 import Mistune.Util
+import Mistune.Unicode
